@@ -77,6 +77,13 @@ def coq_end(e):
     return f'(RaisedOtherBase {pv.coq_str(e[1])} {pv.coq_str(e[2])})'
 
 
+def nat_max(terms):
+    acc = terms[0]
+    for t in terms[1:]:
+        acc = f'(Nat.max {acc} {t})'
+    return acc
+
+
 def planned_end(case):
     """How the runner call ends, from the case alone (subprocess runs cannot spy on it)."""
     e = case['ending']
@@ -102,12 +109,13 @@ class Prop(PropBase):
     coq_imports = ['PV.Model.Parsers', 'PV.Model.Cli']
     props_file = 'theories/Props/C18.v'
     n_cases = {'quick': 1200, 'thorough': 12000}
-    rule = ('cases = (a) a built-in parser module called on None / [] / a list of tokens built from '
+    rule = ('cases = (a) a built-in parser module called THREE times (every container of the earlier result '
+            'changed in place between the calls) on None / [] / a list of tokens built from '
             'keys and values with "=", blanks, quotes, unicode, empty strings and duplicates (json: '
             'rendered objects with random whitespace and duplicate keys, malformed texts, non-objects); '
             '(b) all 27 shapes of (parse_args, args_in, dict_in) for Pipeline._get_parse_input; '
-            '(c) pypyr.pipelinerunner.run with a parser / args_in / dict_in / parse_args and a probe '
-            'as first step; (d) pypyr.cli.main(argv) in-process and `python -m pypyr` as a child '
+            '(c) pypyr.pipelinerunner.run TWICE in one process with a parser / args_in / dict_in / parse_args, a '
+            'probe as first step and a step that changes every context container in place after it; (d) pypyr.cli.main(argv) in-process and `python -m pypyr` as a child '
             'process on argv rendered from a structured record (three call shapes, options in any '
             'order) against a generated pipeline that ends by completion, stop, stoppipeline, '
             'stopstepgroup, an Exception of 12 types, a handled error whose failure handler stops, '
@@ -158,19 +166,26 @@ class Prop(PropBase):
     def coq_check_inner(self, case, obs):
         k = case['kind']
         if k == 'parser':
-            res = coq_parser_res(obs['res'])
-            if res is None:
-                return '1%nat'
-            return f'(parser_verdict {PID[case["parser"]]} {coq_args(case["args"])} {res})'
+            terms = []
+            for key in ('res', 'again', 'third'):
+                if key not in obs:
+                    continue
+                res = coq_parser_res(obs[key])
+                if res is None:
+                    return '1%nat'
+                terms.append(f'(parser_verdict {PID[case["parser"]]} {coq_args(case["args"])} {res})')
+            return nat_max(terms)
         if k == 'parse_input':
             if not obs['is_bool']:
                 return '1%nat'
             return (f'(parse_input_verdict {coq_optbool(case["parse_args"])} {coq_args(case["args_in"])} '
                     f'{coq_optdict(case["dict_in"])} {pv.coq_bool(obs["res"])})')
         if k == 'api':
-            return (f'(api_verdict {coq_parser(case["parser"])} {coq_optbool(case["parse_args"])} '
-                    f'{coq_args(case["args_in"])} {coq_optdict(case["dict_in"])} '
-                    f'{pv.coq_res(obs["res"], lambda v: pv.coq_dict(v["d"]))})')
+            return nat_max([
+                f'(api_verdict {coq_parser(case["parser"])} {coq_optbool(case["parse_args"])} '
+                f'{coq_args(case["args_in"])} {coq_optdict(case["dict_in"])} '
+                f'{pv.coq_res(obs[key], lambda v: pv.coq_dict(v["d"]))})'
+                for key in ('res', 'res2') if key in obs])
         return self.coq_check_cli(case, obs)
 
     def coq_check_cli(self, case, obs):
@@ -221,7 +236,7 @@ class Prop(PropBase):
             ctx = f'(Some {pv.coq_dict(first[0]["ctx"])})'
         terms.append(f'(cli_verdict {pv.coq_str(obs["cwd"])} {argv} {coq_parser(case["parser"])} '
                      f'{coq_end(end)} {call} {main} {pv.coq_bool(quiet)} {pv.coq_Z(obs["status"])} {ctx})')
-        return '(Nat.max ' + ' '.join(terms) + ')'
+        return nat_max(terms)
 
     def coq_model_obs(self, case):
         k = case['kind']
